@@ -312,7 +312,7 @@ pub fn run(r: &mut Runner) -> &'static str {
     r.rule = "inputs: a value of every WriteToHeader type (12 integer types at 0/min/max/random, address blocks of 4 families, TypeLengthValue, (u8,&[u8]), (Type,&[u8]), TypeLengthValues, [u8], Type; \
               value lengths 0..65536+) x writer prefill (empty, <= 64 random bytes, sized to land prefill+encoding at the 65551-byte limit -3..+3, 65000..65560). oracle: reference encoders R-ENC: \
               below the limit Ok(|enc|) and contents == prefill ++ enc, to_bytes() == enc, &T identical; oversize TLV value / slice -> Err, writer unchanged; beyond the limit only 'an Ok is honest'. \
-              non-trivial = every case (each is a (value, prefill) pair); distinct by SipHash"
+              non-trivial = every case (each is a (value, prefill) pair); distinct by SipHash Added later: writers that hold a header's fixed part, every value length 0..=2200, sequences of writes into one writer (a refused value in between), owned TLVs."
         .into();
     let n = r.n(200_000, 4_000_000);
     r.random("c20.values", n, 96, &gen_case, &judge);
